@@ -64,6 +64,32 @@ def proxGradStep [LE α] (l1 : Vec α) (γ : α) (x g lb ub : Vec α) : α × Ve
     let xh := r.map (·.2)
     (norm1 (vmul xh l1), xh, r.map (·.1))
 
+/-- `L1Norm<Conf, real_t>::prox`: `(out, returned value)`; `λ == 0` is the identity with value 0,
+    otherwise the generated soft-threshold on every component and the generated returned value
+    `λ * norm_1(out)`. -/
+def l1ProxScalarWeight (lam γ : α) (v : Vec α) : Vec α × α :=
+  if lam == 0 then (v, 0)
+  else
+    let out := v.map fun a => Gen.l1ProxScalarW lam γ a
+    (out, Gen.l1ValueScalarW lam out)
+
+/-- `L1Norm<Conf, vec>::prox`: an empty weight vector is replaced by all ones; generated
+    soft-threshold per component, generated returned value `norm_1(out.cwiseProduct(λ))`. -/
+def l1ProxVectorWeight [OfNat α 1] (lam : Vec α) (γ : α) (v : Vec α) : Vec α × α :=
+  let lam := if lam.length == 0 then v.map (fun _ => (1 : α)) else lam
+  let out := (List.range v.length).map fun i => Gen.l1ProxVectorW (vget lam i) γ (vget v i)
+  (out, Gen.l1ValueVectorW lam out)
+
+/-- The generic default of the `prox_step` customisation point (`prox_step_fn`, "prox_step from
+    prox"): `fb_step = in + γ_fwd·fwd_step; h = prox(func, fb_step, out, γ); fb_step = out − in;
+    return h` — for any functor, given its `prox` (with `γ` already applied) as a function
+    `input ↦ (out, h)`.  Returns `(h, out, fb_step)`. -/
+def proxStepDefault (prox : Vec α → Vec α × α) (inp fwd : Vec α) (γfwd : α) : α × Vec α × Vec α :=
+  let idx := List.range inp.length
+  let fb0 := idx.map fun i => Gen.proxStepDefaultFwd (vget inp i) γfwd (vget fwd i)
+  let r := prox fb0
+  (r.2, r.1, idx.map fun i => Gen.proxStepDefaultFb (vget r.1 i) (vget inp i))
+
 end
 
 /-! ### `L1NormComplex::prox` and the post-SVD part of `NuclearNorm::prox` -/
